@@ -1,6 +1,7 @@
 package gw
 
 import (
+	"strconv"
 	"strings"
 
 	"github.com/resgateio/resgate/server/mq"
@@ -37,6 +38,10 @@ var eventShapes = map[string][2]string{
 	"remove-neg":         {"remove", `{"idx":-1}`},
 	"remove-oob":         {"remove", `{"idx":99}`},
 	"remove-str":         {"remove", `{"idx":"1"}`},
+	// boundary indexes: $LEN = the collection's current length (first invalid index of a remove), $LEN1 = one more
+	// (first invalid index of an add); 0 for a resource that is not a collection
+	"remove-len":         {"remove", `{"idx":$LEN}`},
+	"add-len1":           {"add", `{"idx":$LEN1,"value":1}`},
 	"remove-badjson":     {"remove", `[`},
 	"evt-noname":         {"", `{}`},
 	"query-nosubject":    {"query", `{"subject":""}`},
@@ -69,6 +74,7 @@ var replyShapes = map[string]string{
 	"resource-num":     `{"resource":{"rid":12}}`,
 	"events-notarray":  `{"result":{"events":{}}}`,
 	"events-badevent":  `{"result":{"events":[{"event":"add","data":{"idx":99,"value":1}}]}}`,
+	"events-removelen": `{"result":{"events":[{"event":"remove","data":{"idx":$LEN}}]}}`,
 	"events-badchange": `{"result":{"events":[{"event":"change","data":{"values":{"a1":"changed","zbad":[1]}}}]}}`,
 	"events-and-model": `{"result":{"events":[],"model":{"a":1}}}`,
 	"meta-string":      `{"result":{"get":true},"meta":"x"}`,
@@ -105,11 +111,36 @@ var replyMalformed = map[string]string{
 	"resource-num":     "*",
 	"events-notarray":  "get query",
 	"events-badevent":  "get query",
+	"events-removelen": "get query",
 	"events-badchange": "get query",
 	"events-and-model": "query",
 	"meta-string":      "get access call auth",
 	"meta-status-str":  "get access call auth",
 	"meta-header-str":  "get access call auth",
+}
+
+// withLen substitutes the boundary indexes of the content the gateway caches for the key: what was last handed to it
+// in a response (sent=true: query requests) or the service's current content, which events keep the cache in step
+// with - unless it was mutated silently; ok=false when the cached length is not known.
+func (s *Sim) withLen(raw, k string, sent bool) (string, bool) {
+	if !strings.Contains(raw, "$LEN") {
+		return raw, true
+	}
+	r := s.lookup(k)
+	if sent {
+		r = s.sent[k]
+	} else if s.mut[k] {
+		return "", false
+	}
+	if r == nil {
+		return "", false
+	}
+	n := 0
+	if r.Kind == "c" {
+		n = len(r.C)
+	}
+	raw = strings.ReplaceAll(raw, "$LEN1", strconv.Itoa(n+1))
+	return strings.ReplaceAll(raw, "$LEN", strconv.Itoa(n)), true
 }
 
 func malformedFor(shape, typ string) bool {
@@ -143,10 +174,14 @@ func (s *Sim) inject(sname, shape string) bool {
 	if !w.mq.hasSub(ns) {
 		return false
 	}
+	payload, ok := s.withLen(sh[1], sname, false)
+	if !ok {
+		return false
+	}
 	rec := w.mevtRec("event", sh[0])
 	rec["n"], rec["bad"], rec["shape"] = sname, true, shape
 	w.add(rec)
-	return w.mq.deliver(ns, sh[0], []byte(sh[1]))
+	return w.mq.deliver(ns, sh[0], []byte(payload))
 }
 
 // replyBad answers a pending request with a malformed response.
@@ -156,6 +191,10 @@ func (s *Sim) replyBad(r *mqReq, shape string) bool {
 		return false
 	}
 	if !malformedFor(shape, r.typ) {
+		return false
+	}
+	raw, ok = s.withLen(raw, key(r.sname, s.normQ(r.sname, r.query)), r.typ == "query")
+	if !ok {
 		return false
 	}
 	if !s.w.mq.take(r) {
